@@ -97,6 +97,7 @@ func foreignSelf(raw json.RawMessage, resp *drv.Response) error {
 		return err
 	}
 	rng := drv.Rng(int64(4100 + req.Shard))
+	var unexercised []string // rows whose move applied to none of the inputs (expected: "the digits of x + r" at a narrow width only)
 	narrow, narrowRadix := 0, 0
 	for _, r := range rows {
 		if r.Shape == "digits" && r.W <= 1 && (narrow == 0 || r.N < narrow) {
@@ -230,6 +231,9 @@ func foreignSelf(raw json.RawMessage, resp *drv.Response) error {
 		}
 		key := fmt.Sprintf("%s/w%d/%d/%s%v/%v/%s", r.Shape, r.W, r.N, r.Bound, r.Boolean, r.BelowModulus, r.Family)
 		resp.Count(key, false)
+		if applied == 0 {
+			unexercised = append(unexercised, key)
+		}
 		if wins != r.Wins {
 			resp.Violate("foreignself/table-mismatch "+key,
 				fmt.Sprintf("ForeignMoves.tla: family %s against (%s w=%d n=%d, bound=%s boolean/boundLo=%v, belowModulus/boundHi=%v) wins=%v; on the real gadget wins=%v (move applied to %d inputs)", r.Family, r.Shape, r.W, r.N, r.Bound, r.Boolean, r.BelowModulus, r.Wins, wins, applied), r)
@@ -238,5 +242,6 @@ func foreignSelf(raw json.RawMessage, resp *drv.Response) error {
 			resp.Sample(map[string]any{"row": key, "model_wins": r.Wins, "real_wins": wins, "inputs_where_the_move_applied": applied})
 		}
 	}
+	resp.Note("rows_move_never_applied", unexercised)
 	return nil
 }
